@@ -13,12 +13,16 @@
 (*   WrongUnit         : a request for unit 2 is executed on unit 1        *)
 (*   SharedFramer      : one framing buffer for all connections            *)
 (*   NoTid             : the response carries transaction id 0             *)
+(*   ResetStaysOn      : after one idle time-out of recv() the handler     *)
+(*                       clears its framing state after every read (the    *)
+(*                       loop-local reset flag is never lowered), so a     *)
+(*                       request arriving in two reads is never served     *)
 (***************************************************************************)
 EXTENDS Server, TLC
 
 CONSTANTS SDev
-VARIABLES cfg, tab, out, pend, fedpart, last
-vars == <<cfg, tab, out, pend, fedpart, last>>
+VARIABLES cfg, tab, out, pend, fedpart, last, rf
+vars == <<cfg, tab, out, pend, fedpart, last, rf>>
 
 Conns == {1, 2}
 Blk1(v) == [kind |-> "seq", start |-> 0, size |-> 1, def |-> 0, ov |-> [a \in {0} |-> v], fail |-> FALSE]
@@ -36,6 +40,7 @@ Init == /\ cfg \in Cfgs
         /\ pend = [c \in Conns |-> None]
         /\ fedpart = [c \in Conns |-> None]   \* ghost: the partial frame the environment really sent on c
         /\ last = [c |-> 0, f |-> None, before |-> tab, n |-> 0]
+        /\ rf = [c \in Conns |-> FALSE]           \* the serving loop's "reset the frame after this read" flag
 
 (* the front-end as implemented (with deviations) *)
 Handle(c, f) ==
@@ -51,20 +56,26 @@ Handle(c, f) ==
           /\ tab' = t2
           /\ last' = [c |-> c, f |-> f, before |-> tab, n |-> 1 - last.n]
 
-RecvWhole(c, f) == fedpart[c] = None /\ Handle(c, f) /\ UNCHANGED <<cfg, pend, fedpart>>
+RecvWhole(c, f) == fedpart[c] = None /\ Handle(c, f) /\ UNCHANGED <<cfg, pend, fedpart, rf>>
+Idle(c) ==         \* recv() times out while no frame is partly received: the flag is raised, the (empty) frame reset, the flag lowered
+  /\ fedpart[c] = None
+  /\ rf' = [rf EXCEPT ![c] = ("ResetStaysOn" \in SDev)]
+  /\ UNCHANGED <<cfg, tab, out, pend, fedpart, last>>
 RecvPart(c, f) ==  \* the first bytes of frame f arrive
   /\ fedpart[c] = None
   /\ fedpart' = [fedpart EXCEPT ![c] = f]
-  /\ pend' = IF "SharedFramer" \in SDev THEN [d \in Conns |-> f] ELSE [pend EXCEPT ![c] = f]
-  /\ UNCHANGED <<cfg, tab, out, last>>
+  /\ pend' = IF rf[c] THEN [pend EXCEPT ![c] = None]       \* (a raised flag wipes what this read stored)
+             ELSE IF "SharedFramer" \in SDev THEN [d \in Conns |-> f] ELSE [pend EXCEPT ![c] = f]
+  /\ UNCHANGED <<cfg, tab, out, last, rf>>
 RecvRest(c) ==     \* the rest arrives: the frame completed is the one this connection's framing state holds
   /\ fedpart[c] # None
-  /\ Handle(c, pend[c])
+  /\ IF pend[c] = None THEN UNCHANGED <<tab, out, last>>      \* the framing state no longer holds the first part: nothing is served
+     ELSE Handle(c, pend[c])
   /\ pend' = IF "SharedFramer" \in SDev THEN [d \in Conns |-> None] ELSE [pend EXCEPT ![c] = None]
   /\ fedpart' = [fedpart EXCEPT ![c] = None]
-  /\ UNCHANGED cfg
+  /\ UNCHANGED <<cfg, rf>>
 Bound == \A c \in Conns : Len(out[c]) <= 2
-Next == Bound /\ \E c \in Conns : (\E f \in Frames : RecvWhole(c, f)) \/ (\E f \in PartFrames : RecvPart(c, f)) \/ RecvRest(c)
+Next == Bound /\ \E c \in Conns : (\E f \in Frames : RecvWhole(c, f)) \/ (\E f \in PartFrames : RecvPart(c, f)) \/ RecvRest(c) \/ Idle(c)
 Spec == Init /\ [][Next]_vars
 
 (* ---- properties (over cfg, tab, ghost last/acc and the observable out) ---- *)
@@ -82,6 +93,8 @@ C09Step ==
                                                            /\ new[1].pdu \in {<<(f.pdu[1] + 128) % 256, 10>>, <<(f.pdu[1] + 128) % 256, 11>>}))
                 ELSE Len(new) = 1 /\ new[1].tid = f.tid /\ new[1].uid = f.uid
                      /\ new[1].pdu[1] \in {f.pdu[1], (f.pdu[1] + 128) % 256} ]_vars
+(* C09: a request whose last bytes arrive is served at that moment (it is neither forgotten nor postponed) *)
+C09Served == [][ \A c \in Conns : (fedpart[c] # None /\ fedpart'[c] = None) => (last' # last /\ last'.c = c) ]_vars
 (* C10: only the addressed unit changes; a broadcast write reaches every hosted unit exactly once *)
 C10Step ==
   [][ last' # last =>
@@ -94,5 +107,5 @@ C10Step ==
         /\ (~IsBroadcast(f) /\ ~Hosted(f.uid)) => tab' = tab ]_vars
 (* C17 (isolation): the frame a connection completes is the frame that connection started *)
 Isolation == [][ \A c \in Conns : (fedpart[c] # None /\ fedpart'[c] = None) => (last' # last /\ last'.c = c /\ last'.f = fedpart[c]) ]_vars
-View == <<cfg, tab, pend, fedpart, [c \in Conns |-> Len(out[c])]>>
+View == <<cfg, tab, pend, fedpart, rf, [c \in Conns |-> Len(out[c])]>>
 =============================================================================
